@@ -146,7 +146,8 @@ def run_config(chk, config):
                   {"obligation": "control Length field = octets emitted", "emitted": repr(total)})
         # header is 12 octets before the first AVP: tokens by ControlMessage::write itself
         hdr = [e for e in own if e[0] == "w"]
-        hsz = sum((2 if e[2] != "bytes" else (e[3][0].c if e[3][0].is_const() else 99)) for e in hdr)
+        wid_ = {"write_u8": 1, "write_u16_be": 2, "write_u32_be": 4, "write_u64_be": 8}
+        hsz = sum((wid_.get(e[2], 99) if e[2] != "bytes" else (e[3][0].c if e[3][0].is_const() else 99)) for e in hdr)
         chk.oblig(hsz == 12, "ctrl-header | ControlMessage::write", "control header emitted by ControlMessage::write is %d octets, not 12" % hsz,
                   {"tokens": [e[2] for e in hdr]}, {"obligation": "12 header octets, then only AVP::write emits"})
     chk.oblig(not outside, "tiling | ControlMessage::write", "octets are emitted between the control header and the Length patch outside AVP::write: %s" % outside[:2],
